@@ -627,6 +627,12 @@ func (hp *HTTPProxy) isLocalhost(host string) bool {
 }
 
 func (hp *HTTPProxy) setBasicAuth(req *http.Request) error {
+	// Site credentials are for the origin. A CONNECT request is never delivered to the origin,
+	// its header is consumed by this proxy or by the upstream proxy.
+	if req.Method == http.MethodConnect {
+		return nil
+	}
+
 	if req.Header.Get("Authorization") == "" {
 		if u := hp.creds.MatchURL(req.URL); u != nil {
 			p, _ := u.Password()
